@@ -524,6 +524,11 @@ func addTree(
 			c.FileInfo.Mode = tree.FileInfo.Mode
 		}
 
+		// only implicit directories may be replaced, like everywhere else
+		if present, ok := all[c.Destination]; ok && present.Type != TypeImplicitDir {
+			return contentCollisionError(c, present)
+		}
+
 		all[c.Destination] = c.WithFileInfoDefaults(umask, mtime)
 
 		return nil
